@@ -1,9 +1,13 @@
+#[cfg(feature = "verif-hooks")]
+use crate::verif_hooks::SimInstant as Instant;
 use lru::LruCache;
 use parking_lot::RwLock;
 use std::hash::Hash;
 use std::num::NonZeroUsize;
 use std::sync::{Arc, Mutex};
-use std::time::{Duration, Instant};
+use std::time::Duration;
+#[cfg(not(feature = "verif-hooks"))]
+use std::time::Instant;
 
 /// Maximum rate limit keys before evicting oldest (prevents memory DoS from many IPs)
 const MAX_RATE_LIMIT_KEYS: usize = 100_000;
